@@ -272,7 +272,7 @@ fn check_resolvers(rep: &mut Report, view: &SchemaView, file: &Sexp, case: &Case
 }
 
 #[allow(clippy::too_many_arguments)]
-fn resolver_members(rep: &mut Report, drv: &mut Driver, view: &SchemaView, resolvers: &Sexp, schema_tree: &Sexp, cfg_sexp: &Sexp, ref_doc_sexp: &Sexp, domain: &[(String, J)], case: &Case) {
+fn resolver_members(rep: &mut Report, drv: &mut Driver, view: &SchemaView, resolvers: &Sexp, schema_tree: &Sexp, cfg_sexp: &Sexp, ref_doc_sexp: &Sexp, domain: &[(String, J)], sig_suffix: &str, case: &Case) {
     let Some(res) = find_type(resolvers, "Resolvers") else {
         return;
     };
@@ -335,7 +335,7 @@ fn resolver_members(rep: &mut Report, drv: &mut Driver, view: &SchemaView, resol
                 }
             }
             let kind = view.doc.type_def(f.ty.unwrapped()).map(|k| k.kind.as_str()).unwrap_or("?").to_string();
-            queries.push((t.name.clone(), f.name.clone(), "args", "args-record".into()));
+            queries.push((t.name.clone(), f.name.clone(), "args", "arguments".into()));
             ts_q.push(Sexp::list(vec![Sexp::list(vec![]), a[1].clone()]));
             ref_q.push(Sexp::call("args", vec![Sexp::list(f.args.iter().map(|x| strip_pos(&x.to_sexp())).collect())]));
             queries.push((t.name.clone(), f.name.clone(), "result", kind));
@@ -369,7 +369,7 @@ fn resolver_members(rep: &mut Report, drv: &mut Driver, view: &SchemaView, resol
             if in_ts != in_ref {
                 let dir = if in_ts { "too-wide" } else { "too-narrow" };
                 let clause = label.split(':').next().unwrap_or("");
-                let sig = format!("resolvers:{what}:{kind}:{clause}:{dir}");
+                let sig = format!("resolvers:{what}:{kind}:{clause}:{dir}{sig_suffix}");
                 let refname = if *what == "args" { format!("Ref_ResolverInput(args {ty}.{field})") } else { format!("the resolver result reference of {ty}.{field}") };
                 rep.fail(
                     "O",
@@ -693,7 +693,7 @@ fn run_case(rep: &mut Report, drv: &mut Driver, case: &Case) {
     // the REAL schema file through its `import type * as Schema`, against Ref_ResolverInput(args f) / the resolver
     // result reference of type f
     if let Some(rt) = &real_resolvers {
-        resolver_members(rep, drv, &view, rt, &real_tree, &cfg_sexp, &ref_doc_sexp, &values, case);
+        resolver_members(rep, drv, &view, rt, &real_tree, &cfg_sexp, &ref_doc_sexp, &values, if tmp_in_text { ":scalar-text-mentions-__tmp_" } else { "" }, case);
     }
     rep.count_n("domain:values", values.len() as u64);
     rep.count_n("domain:aliases", queries.len() as u64);
